@@ -60,7 +60,7 @@ func main() {
 
 SEED_FLAG = "-seed=QzA4IHZlcmlmIHNlZWQh"
 JVM_SMALL = ("-Xmx4g", "-XX:ParallelGCThreads=4")
-JVM_BIG = ("-Xmx12g", "-XX:ParallelGCThreads=8")
+JVM_BIG = ("-Xmx8g", "-XX:ParallelGCThreads=6")
 
 
 # --------------------------------------------------------------------------- TLC output
@@ -94,6 +94,23 @@ def first_quiet(trace: list) -> int:
     raise Inconclusive("forced trace too short: no quiet pass")
 
 
+# --------------------------------------------------------------------------- reporting
+
+MAX_REPLAYS_PER_CLASS = 6
+_reported = {}
+
+
+def report(chk, witness: dict, files: dict, what: str):
+    """chk.violation with a cap on the number of replay directories per class of witness
+    (a broken tree can make hundreds of cells fail for the same reason)."""
+    cls = json.dumps([witness.get(k) for k in ("kind", "shape", "cons", "tshape", "what", "family", "flags")])
+    _reported[cls] = _reported.get(cls, 0) + 1
+    if _reported[cls] > MAX_REPLAYS_PER_CLASS and chk.violations:
+        chk.extra["violations_without_replay_dir"] = chk.extra.get("violations_without_replay_dir", 0) + 1
+        return
+    chk.violation(witness, files, what)
+
+
 # --------------------------------------------------------------------------- shapes
 
 class ShapeBatch:
@@ -120,11 +137,17 @@ def run_shapes(chk, sb, batch: ShapeBatch, vulnerable: dict, n_builds: int, orde
         raise Inconclusive(f"regular shapes binary failed: {pr.stderr[-2000:]}")
     plain = split_shape_output(pr.stdout)
     by_idx = dict(batch.shapes)
-    # sanity: the regular binary shows exactly the types the flow rules say reach reflection
+    # sanity: the regular binary shows the types the flow rules say reach reflection (never more; the hand-written
+    # shapes exactly; a generated member may have a static flow that its bounded recursion does not execute)
+    static_only = []
     for idx, sh in batch.shapes:
         seen = {t for t in shape_types(sh) if any(shape_type(idx, t).lower() in l.lower() for l in plain.get(idx, []))}
-        if seen != set(sh["lfp_names"]):
+        if not seen <= set(sh["lfp_names"]) or (seen != set(sh["lfp_names"]) and not sh["id"].startswith("g")):
             raise Inconclusive(f"generator bug: shape {sh['id']} shows types {sorted(seen)} at run time, spec LFP says {sh['lfp_names']}")
+        if seen != set(sh["lfp_names"]):
+            static_only.append(sh["id"])
+    if static_only:
+        chk.extra.setdefault("shapes_with_static_only_flows", []).extend(static_only)
 
     # ---- (i) in-process driver with controlled orders
     mismatches = []
@@ -189,18 +212,18 @@ def run_shapes(chk, sb, batch: ShapeBatch, vulnerable: dict, n_builds: int, orde
     seen_loss = {}
     for k, rr, out in builds:
         if rr.returncode != 0:
-            chk.violation({"kind": "shape", "shape": "build-failed", "batch": batch.name},
+            report(chk, {"kind": "shape", "shape": "build-failed", "batch": batch.name},
                           {"main.go": batch.program(k + 1)["main.go"], "stderr.txt": rr.stderr, "cmd.txt": "garble build ."},
                           what="garble fails to build the generated shapes program")
             continue
         if out.returncode != 0:
-            chk.violation({"kind": "shape", "shape": "garbled-binary-crashed", "batch": batch.name},
+            report(chk, {"kind": "shape", "shape": "garbled-binary-crashed", "batch": batch.name},
                           {"main.go": batch.program(k + 1)["main.go"], "stderr.txt": out.stderr, "plain.stdout": pr.stdout},
                           what="garbled shapes binary exits non-zero, regular one does not")
             continue
         gout = split_shape_output(out.stdout)
         if gout.get(-1) != plain.get(-1):
-            chk.violation({"kind": "shape", "shape": "unattributed-output", "batch": batch.name},
+            report(chk, {"kind": "shape", "shape": "unattributed-output", "batch": batch.name},
                           {"main.go": batch.program(k + 1)["main.go"], "garbled.stdout": out.stdout, "plain.stdout": pr.stdout},
                           what="garbled shapes binary prints lines that the regular one does not")
         for idx, sh in batch.shapes:
@@ -212,7 +235,7 @@ def run_shapes(chk, sb, batch: ShapeBatch, vulnerable: dict, n_builds: int, orde
             vul = vulnerable.get(sh["id"], set())
             cls = "second-param-discovered-late" if lost and set(lost) <= vul else "unexpected-loss"
             seen_loss.setdefault(sh["id"], []).append(k)
-            chk.violation({"kind": "shape", "shape": cls, "shape_id": sh["id"], "lost": lost, "seed_api": batch.kind[idx],
+            report(chk, {"kind": "shape", "shape": cls, "shape_id": sh["id"], "lost": lost, "seed_api": batch.kind[idx],
                            "spec_vulnerable": sorted(vul)},
                           {"main.go": batch.program(k + 1)["main.go"], "garbled.stdout": out.stdout, "plain.stdout": pr.stdout,
                            "shape.json": json.dumps({k2: sh[k2] for k2 in ("id", "np", "calls", "lfp_names")}),
@@ -232,13 +255,13 @@ def judge_cells(chk, flags: list, cells: list, src: Path, plain: dict, rr, binp:
     """Compare the garbled cells binary with the regular one, cell by cell."""
     tag = flag_tag(flags)
     if rr.returncode != 0:
-        chk.violation({"kind": "cell", "cons": "-", "tshape": "-", "what": "build-failed", "flags": tag},
+        report(chk, {"kind": "cell", "cons": "-", "tshape": "-", "what": "build-failed", "flags": tag},
                       {"src": src, "stderr.txt": rr.stderr, "cmd.txt": f"garble {' '.join(flags)} build ."},
                       what=f"garble {' '.join(flags)} fails to build the layout cells program")
         return -1
     out = run([binp], timeout=300)
     if out.returncode != 0:
-        chk.violation({"kind": "cell", "cons": "-", "tshape": "-", "what": "crashed", "flags": tag},
+        report(chk, {"kind": "cell", "cons": "-", "tshape": "-", "what": "crashed", "flags": tag},
                       {"src": src, "stderr.txt": out.stderr}, what="garbled cells binary exits non-zero")
         return -1
     got = split_cell_output(out.stdout)
@@ -260,11 +283,11 @@ def judge_cells(chk, flags: list, cells: list, src: Path, plain: dict, rr, binp:
             lc = "partial"
         w = {"kind": "cell", "flags": tag, "lost_class": lc}
         w.update({k: c[k] for k in ("decl", "site", "via", "cons", "tshape", "api")})
-        chk.violation(w, {"src": src, "plain.txt": plain.get(n, ""), "garbled.txt": got.get(n, ""), "cell.json": json.dumps(c),
+        report(chk, w, {"src": src, "plain.txt": plain.get(n, ""), "garbled.txt": got.get(n, ""), "cell.json": json.dumps(c),
                           "cmd.txt": f"garble {' '.join(flags)} build -o prog . && ./prog | grep c{n:03d}"},
                       what=f"cell {n} {w}: reflection output differs: plain {plain.get(n)!r} garbled {got.get(n)!r}")
     if got.get(-1, "") != plain.get(-1, ""):
-        chk.violation({"kind": "cell", "cons": "-", "tshape": "-", "what": "unattributed-output", "flags": tag},
+        report(chk, {"kind": "cell", "cons": "-", "tshape": "-", "what": "unattributed-output", "flags": tag},
                       {"garbled.stdout": out.stdout}, what="garbled cells binary prints unexpected lines")
     return bad
 
@@ -318,7 +341,7 @@ def run_replacer(chk, garble, table: dict, n_random: int, label: str):
         if got != ref:
             bad += 1
             if bad <= 5:
-                chk.violation({"kind": "replacer", "family": fam},
+                report(chk, {"kind": "replacer", "family": fam},
                               {"request.json": json.dumps(rq), "real.json": json.dumps(real[i]), "expected.txt": ref,
                                "cmd.txt": "garble verif replacer < request.json"},
                               what=f"injected replacer gives {got!r}, strings.NewReplacer gives {ref!r} for {rq}")
@@ -354,7 +377,7 @@ def main(tier, seed):
     scratch = mkscratch("c08")
 
     # ---- sandboxes and background warm-up of the obfuscated std per flag set
-    flag_sets = [[], ["-tiny"]] if quick else [[], ["-tiny"], [SEED_FLAG], ["-literals"]]
+    flag_sets = [[]] if quick else [[], ["-tiny"], [SEED_FLAG], ["-literals"]]
     gcache = scratch / "garblecache"
     sbs = {}
     for fl in flag_sets:
